@@ -48,6 +48,12 @@ fn input_sets() -> Vec<InputSet> {
         i("bad-flag", None, &["{\"k\": 1}", "not json"]),
         i("bad-stdin", Some("{oops"), &[]),
         i("null-value", None, &["{\"k\": null}"]),
+        // explicit value_n keys meeting the automatic numbering of non-object inputs
+        i("stdin-value-key-then-scalar", Some("{\"value_1\": \"piped\", \"k\": 1}"), &["7"]),
+        i("stdin-value2-key-then-two-scalars", Some("{\"value_2\": \"piped\", \"j\": 0}"), &["7", "8"]),
+        i("stdin-value9-key-then-array", Some("{\"value_9\": 1}"), &["[1]"]),
+        i("flag-value-key-then-scalar", None, &["{\"value_1\": \"a\", \"value_2\": \"b\"}", "5"]),
+        i("scalar-then-flag-value-key", None, &["5", "{\"value_1\": \"late\"}", "6"]),
     ]
 }
 
@@ -349,7 +355,7 @@ pub fn run(ctx: &Ctx, replay: Option<&J>) -> i32 {
     finish(
         ctx,
         "model_checking",
-        "model traces = every script of length <= 3/4 over an 11-statement alphabet (bind, output-with-binding, output of bound/unbound name, re-output, evaluation failure, non-portable function output, parse error, comment, #name / inputs.name reads, value_n reads) x 14 input sets (0..3 --input flags and/or stdin; objects with overlapping keys, arrays, scalars, explicit value_1 key, empty stdin, invalid JSON) x 4 invocation modes (file, inline, -e stdin, -o file); every trace is executed by the real binary and compared with the model (exit status biconditional, exactly one outputs object with the model's keys in declaration order and values, no object / no file on failure, diagnostics present); distinct = distinct (script, inputs, mode)",
+        "model traces = every script of length <= 3/4 over an 11-statement alphabet (bind, output-with-binding, output of bound/unbound name, re-output, evaluation failure, non-portable function output, parse error, comment, #name / inputs.name reads, value_n reads) x 19 input sets (0..3 --input flags and/or stdin; objects with overlapping keys, arrays, scalars, explicit value_1 key, empty stdin, invalid JSON) x 4 invocation modes (file, inline, -e stdin, -o file); every trace is executed by the real binary and compared with the model (exit status biconditional, exactly one outputs object with the model's keys in declaration order and values, no object / no file on failure, diagnostics present); distinct = distinct (script, inputs, mode)",
         true,
         Some((scripts.len() as u64 * sets.len() as u64, n, n)),
     )
